@@ -193,7 +193,7 @@ def scalar_ops(n, K, a, obj, P):
     bad = list(K["bad"]) if P.get("invalid", True) else []
     if P.get("small"):
         conf = [conf[i] for i in K["small_conf"]] if "small_conf" in K else conf[:1] + conf[-1:]
-        bad = bad[:1] + bad[-1:] if len(bad) > 1 else bad[:1]
+        bad = bad[:1] + bad[1:][-2:]  # (first + the last two: a Dict kind lists a bad-KEY and a bad-VALUE dict, both are kept)
     for ip in inpl:
         f = _flags(ip)
         for v in conf:
@@ -371,7 +371,7 @@ def assign_ops(n, K, a, obj, P):
     bad = list(K["bad"]) if P.get("invalid", True) else []
     if P.get("small"):
         conf = [conf[i] for i in K["small_conf"]] if "small_conf" in K else conf[:1] + conf[-1:]
-        bad = bad[:1] + bad[-1:] if len(bad) > 1 else bad[:1]
+        bad = bad[:1] + bad[1:][-2:]  # (first + the last two: a Dict kind lists a bad-KEY and a bad-VALUE dict, both are kept)
     for v in conf:
         ops.append({"op": "set", "attr": n, "value": v, "shape": "set:conf"})
     for v in bad:
@@ -448,7 +448,7 @@ def ctor_kwargs_variants(rec, P):
             if isinstance(last, list) and len(last) == 2 and isinstance(last[1], list) and last[0] in ("list", "set", "KeyedList", "KeyedSet"):
                 out.append(("new:foreign_container", dict(base, **{n: ["tuple" if last[0] in ("list", "set") else "list", last[1]]})))
         if P.get("invalid", True):
-            for v in K["bad"][: (1 if P.get("small") else 3)]:
+            for v in (K["bad"][:1] + K["bad"][1:][-2:] if P.get("small") else K["bad"][:3]):
                 out.append(("new:bad", dict(base, **{n: v})))
     if P.get("invalid", True):
         out.append(("new:unknown_kw", dict(base, nope=1)))
